@@ -89,6 +89,14 @@ class C10(PropBase):
         # 1b. numeric boundary files split at a random point (the digit limits must not depend on chunking)
         for data in G.boundary_files():
             add("boundary", data, [str(1 + rng.below(len(data) - 1))])
+        # 1c. blank lines inside / between groups: split points around the blank lines (all of them for LF run 1)
+        for data, marks in G.blank_group_files():
+            add("blank-whole", data)
+            lo, hi = max(1, marks[0] - 4), min(len(data) - 1, marks[1] + 3)
+            ks = range(1, len(data)) if (b"\r" not in data and marks[1] - marks[0] == 1 and not quick) else range(lo, hi + 1)
+            for k in ks:
+                add("blank-split", data, [str(k)])
+            add("blank-lines", data, G.sched_line_starts(data))
         # 2. grammar files under random small schedules (splits inside CRLF / sub-lines / CFI groups)
         for i in range(600 if quick else 8000):
             pbad = [0, 0, 0, 5, 20][rng.below(5)]
@@ -97,6 +105,8 @@ class C10(PropBase):
             if rng.chance(1, 6):
                 data = G.corrupt(rng, data, 1 + rng.below(2))
             add("grammar", data, G.sched_random(rng, len(data), style=rng.choice([1, 4, 4, 6])))
+            if i % 4 == 0:
+                add("grammar-lines", data, G.sched_line_starts(data, group=1 + rng.below(3)))
         # 3. long lines (all < 80 KiB) around the growth thresholds, random chunk sizes around the thresholds
         for i in range(500 if quick else 6000):
             lines = G.gen_lines(rng, rng.below(4))
@@ -108,6 +118,10 @@ class C10(PropBase):
                     lines += G.gen_lines(rng, rng.below(3))[1:]
             data = G.join(rng, lines, eol_mode=rng.choice([0, 0, 1]), final_nl=not rng.chance(1, 5))
             add("long<80K", data, G.sched_random(rng, len(data), style=rng.choice([1, 1, 2, 3, 5, 6])))
+            if i % 3 == 0:      # every line starts at a chunk boundary (one or two lines per read)
+                add("long-at-boundary", data, G.sched_line_starts(data, group=1 + rng.below(2)))
+            if i % 3 == 1 and not data.endswith(b"\n"):   # chunk boundary right after the last newline of a truncated file
+                add("trunc-at-boundary", data, [str(data.rfind(b"\n") + 1)])
         # 4. outside the class (lines >= 80 KiB): only the callback half of the property applies
         for i in range(80 if quick else 800):
             lines = G.gen_lines(rng, rng.below(4))
@@ -128,6 +142,9 @@ class C10(PropBase):
             if a["total"] <= 300 and not right.strip():
                 out += ["%s| %d" % (left, k) for k in range(1, a["total"])]
         return out
+
+    def impl_cmd(self, exe, profile):
+        return ["env", "VHARNESS_CASE_TIMEOUT=15", exe]
 
     def oracle(self, case, ans, profile):
         if ans.startswith("P;;"):
